@@ -578,6 +578,8 @@ def seq_slice1(s, lo, hi):
             return s.psum(lo + k) - s.psum(lo)
 
     r = SSeq(n, lambda i: s.get(lo + i), s.shape, psum, "slice")
+    if getattr(s, "measure", None) is not None:
+        r.measure = s.measure  # (the slice of a list that carries sum-of-measure(element) carries it too: see seq_concat)
     for c, f in s.cpsum.items():
         r.cpsum[c] = lambda k, f=f: f(lo + k) - f(lo)
     if s.expand is not None and 1 in s.cpsum:
